@@ -163,8 +163,18 @@ class Engine:
         """bad: z3 Bool (or python bool) describing the violation on this path.  Records the result; afterwards assumes not bad."""
         if isinstance(bad, bool) or isinstance(bad, int):
             if not bad: s.vc_count(kind, 'trivial'); return
+            # the assertion is false on this path: a violation if the path is feasible.  Feasibility is re-decided here because a
+            # branch whose query timed out keeps both sides.
+            m = st.model
+            if m is None:
+                r, m = s.query(st, TRUE)
+                if r == 'unsat': raise PathEnd('infeasible')
+                if r != 'sat':
+                    s.vc_count(kind, 'unknown'); s.unknown_vcs.append(dict(kind=kind, msg=msg + ' (path feasibility undecided)', where=s.where(st)))
+                    raise PathEnd('unknown')
+                st.model = m
             s.vc_count(kind, 'violated')
-            s.record_violation(st, kind, msg, s.any_model(st))
+            s.record_violation(st, kind, msg, m)
             raise PathEnd('violation')
         key = bad.get_id()
         fk = st.facts.get(key)
@@ -250,8 +260,16 @@ class Engine:
             o = o.clone(st.sid); st.objs[oid] = o
         return o
     def fail(s, st, kind, msg):
+        m = st.model
+        if m is None:
+            r, m = s.query(st, TRUE)
+            if r == 'unsat': return PathEnd('infeasible')
+            if r != 'sat':
+                s.vc_count(kind, 'unknown'); s.unknown_vcs.append(dict(kind=kind, msg=msg + ' (path feasibility undecided)', where=s.where(st)))
+                return PathEnd('unknown')
+            st.model = m
         s.vc_count(kind, 'violated')
-        s.record_violation(st, kind, msg, st.model if st.model is not None else s.any_model(st))
+        s.record_violation(st, kind, msg, m)
         return PathEnd('violation')
     def any_model(s, st):
         r, m = s.query(st, TRUE)
@@ -873,7 +891,7 @@ class Engine:
             except StopReached:
                 res = st2
             except PathEnd as e:
-                res = 'dead' if e.why in ('assume', 'infeasible', 'violation') else None
+                res = 'dead' if e.why in ('assume', 'infeasible', 'violation', 'unknown') else None
                 if res is None: ok = False
             except (NeedFork, PathDone):
                 ok = False
